@@ -405,6 +405,7 @@ class Translator:
         self.vars = {}
         self.depth = 0
         self.used_bignum = set()   # bignumber functions whose reference summary was applied
+        self.visited_calls = set() # (fn path, bb) of every call the translator interpreted
         if not hasattr(P, "_translators"):
             P._translators = []
         P._translators.append(self)
@@ -662,6 +663,7 @@ class Translator:
 
     def tr_call(self, v, env):
         callee = v[3]
+        self.visited_calls.add((str(v[1]).split("#")[0], v[2]))
         if not isinstance(callee, str):
             raise Unsupported("dynamic call")
         if common.is_try_branch(callee):
